@@ -183,6 +183,12 @@ def gen_pool(master, size):
             if json.dumps(a, sort_keys=False) != json.dumps(d, sort_keys=False):  # not `a != d`: 2 == 2.0 == True in Python
                 alias_count[kind] = alias_count.get(kind, 0) + 1
                 pool.append({"d": a, "ctx": ctx, "alias_of": base, "alias_kind": kind})
+        fac = [x.get("alias_kind") for x in pool[base + 1:] if (x.get("alias_kind") or "").startswith("tensor-factory")]
+        if len(fac) == 1 and len(pool) < size and r.random() < 0.6:
+            # two factories of different signature classes in place of the same tensor: the compiled function of one must never be served to the other
+            other = r.choice([k for k in kinds if k.startswith("tensor-factory") and k != fac[0]])
+            pool.append({"d": make_alias(r, d, other), "ctx": ctx, "alias_of": base, "alias_kind": other})
+            alias_count[other] = alias_count.get(other, 0) + 1
         if d["op"].startswith(("solve", "matches")) and "kw-singleton-list" in kinds and len(pool) < size and r.random() < 0.6:
             # the solve helpers take the same size keywords as the operations but have no compile cache of their own: keep the
             # "3 vs [3]" pair (same bytes, different meaning) frequent for them
